@@ -165,6 +165,78 @@ pub fn run(rep: &mut Rep) {
         let cell = std::cell::RefCell::new(&mut *rep);
         enumerate::explore(d, 2, shard, nshards, |ch| body(&mut cell.borrow_mut(), ch));
     }
+    // publishes whose futures were dropped - before the context had even looked at the request, while waiting for the
+    // acknowledgement, between the QoS 2 phases - are unfinished handshakes like any other: what went onto the wire and was
+    // not acknowledged is re-sent
+    rep.note("cancelled publishes: 1-4 QoS 1/2 publishes queued while the context is held, every subset of their futures dropped before the context runs (and, in other cases, after the PUBLISH was written / after PUBREC), connection lost, session resumed: every PUBLISH on the first wire without acknowledgement is re-sent with DUP=1 in order, the surviving futures complete");
+    let mut cidx = 83_000_000u64;
+    for n in 1..=4usize {
+        for mask in 0..(1u32 << n) {
+            for when in 0..3u8 {
+                let id = format!("cancelled:{n}:{mask}:{when}");
+                cidx += 1;
+                if !rep.take(cidx, &id) {
+                    continue;
+                }
+                let mut w = World::boot(WorldCfg { seed: rep.seed, sei: Some(3600), ..Default::default() });
+                if when == 0 {
+                    w.sim.hold_ctx = true;
+                }
+                let mut ops = Vec::new();
+                for j in 0..n {
+                    ops.push(w.start(j % 2, if j % 2 == 0 { Kind::Pub1 } else { Kind::Pub2 }));
+                    if when != 0 {
+                        w.settle_check();
+                    }
+                }
+                if when == 2 {
+                    for &i in &ops {
+                        if w.m[i].kind == Kind::Pub2 && w.ackable().contains(&(i, 1)) {
+                            w.deliver_ack(i, 1, 0, 0);
+                            w.settle_check();
+                        }
+                    }
+                }
+                for (j, &i) in ops.iter().enumerate() {
+                    if mask >> j & 1 == 1 && w.sim.ops[i].task.alive() {
+                        w.drop_op(i);
+                    }
+                }
+                w.sim.hold_ctx = false;
+                w.settle_check();
+                w.eof();
+                w.settle_check();
+                let (pubs, rels) = w.unfinished();
+                let resumed = w.resume_full(ResumeOpts { secs_ago: 1, sei: Some(3600), ..Default::default() });
+                rep.add("resumptions", 1);
+                rep.add("resumed_sessions", 1);
+                rep.add("publishes_expected_resent", pubs.len() as i64);
+                rep.add("pubrels_expected_resent", rels.len() as i64);
+                if resumed && !w.blind {
+                    for _ in 0..3 {
+                        for (i, st) in w.ackable() {
+                            w.deliver_ack(i, st, 0, 0);
+                            w.settle_check();
+                        }
+                    }
+                }
+                finish(&mut w);
+                for v in w.viols.iter_mut() {
+                    if !v.props.contains(&"C17") && !v.props.contains(&"*") && !v.props.contains(&"C10") {
+                        v.sig = format!("C17/after-resume/{}", v.sig);
+                        v.props = &["C17"];
+                    }
+                }
+                rep.add("evaluations", 1);
+                rep.add("cancelled_publish_cases", 1);
+                rep.distinct(&("cancelled", n, mask, when));
+                if harvest(rep, &mut w, &id) == 0 {
+                    rep.sample(|| format!("{id}: {} PUBLISH and {} PUBREL re-sent although {} of the futures had been dropped", pubs.len(), rels.len(), mask.count_ones()));
+                }
+                add_counters(rep, &w);
+            }
+        }
+    }
     // a resumption that breaks down while re-sending (write error 0-40 bytes into what run() writes), followed by another
     // resumption: the session must still know every unfinished handshake
     rep.note("broken resumption: 1-5 unfinished handshakes; on the resumed connection the transport fails 0 / 2 / 4 / 5 / 9 / 13 / 20 / 40 bytes into the re-sending, run() ends; the session is resumed once more on a healthy connection: everything unfinished is re-sent in order and the original futures complete");
